@@ -46,6 +46,12 @@ BoolFailing(ev) ==
         \cup (IF Abs(aor + aand - aA - aB) <= tol THEN {} ELSE {<<"area_or_plus_and">>})
         \cup (IF Abs(anot - (aA - aand)) <= tol THEN {} ELSE {<<"area_not">>})
         \cup (IF Abs(axor - (aor - aand)) <= tol THEN {} ELSE {<<"area_xor">>})
+        \* [M] the same identities on a grid of 1e-9 (scaled coordinates far beyond 32 bits, rounding
+        \* negligible): areas in 1/1000 square unit, held to 2/1000
+        \cup (IF ev.big_err = 0 THEN {} ELSE {<<"big_scale_error_code">>})
+        \cup (IF Abs(ev.big[1] + ev.big[2] - ev.big[5] - ev.big[6]) <= 2 THEN {} ELSE {<<"big_scale_area_or_plus_and">>})
+        \cup (IF Abs(ev.big[4] - (ev.big[5] - ev.big[2])) <= 2 THEN {} ELSE {<<"big_scale_area_not">>})
+        \cup (IF Abs(ev.big[3] - (ev.big[1] - ev.big[2])) <= 2 THEN {} ELSE {<<"big_scale_area_xor">>})
 
 Check(ev) == IF ev.e = "bool" THEN BoolFailing(ev) ELSE {<<ev.e>>}
 TInit == l = 1
